@@ -47,6 +47,7 @@ from psyclone.psyir.backend.fortran import FortranWriter
 from psyclone.psyir.backend.visitor import PSyIRVisitor, VisitorError
 from psyclone.psyir.nodes import (Routine, Schedule, Reference, Node, Literal,
                                   CodeBlock, BinaryOperation, Assignment,
+                                  UnaryOperation,
                                   IfBlock, IntrinsicCall, Call)
 from psyclone.psyir.symbols import ArgumentInterface
 from psyclone.psyir.tools.call_tree_utils import CallTreeUtils
@@ -341,6 +342,10 @@ class AdjointVisitor(PSyIRVisitor):
             hi_str = fortran_writer(node.stop_expr)
             lo_str = fortran_writer(node.start_expr)
             step_str = fortran_writer(node.step_expr)
+            if isinstance(node.start_expr, (BinaryOperation,
+                                            UnaryOperation)):
+                # Keep 'hi - (lo)' correct when 'lo' is an expression.
+                lo_str = f"({lo_str})"
             # TODO: use language independent PSyIR, see issue #1345
             ptree = Fortran2003.Intrinsic_Function_Reference(
                 f"mod({hi_str}-{lo_str},{step_str})")
